@@ -65,33 +65,23 @@ Definition first_err {A B} (f : A -> res B) (l : list A) (e : exc) : Prop :=
 Lemma mapM_err_first {A B} (f : A -> res B) l e :
   mapM f l = Err e <-> first_err f l e.
 Proof.
-  unfold first_err. induction l as [|x r IH]; cbn.
-  - split; [discriminate|]. intros (pre & x & post & ys & H & _). destruct pre; discriminate.
-  - destruct (f x) as [y|e'] eqn:Hx.
-    + destruct (mapM f r) as [yr|e''] eqn:Hr.
-      * split; [discriminate|]. intros (pre & x0 & post & ys & H & Hp & Hx0).
-        destruct pre as [|p pre]; cbn in H; inversion H; subst.
-        { rewrite Hx in Hx0. discriminate. }
-        assert (Err e = @Ok (list B) yr) as Habs; [|discriminate].
-        rewrite <- Hr. symmetry. apply IH. cbn in Hp. rewrite Hx in Hp.
-        destruct (mapM f pre) as [yp|] eqn:Hpre; [|discriminate].
-        exists pre, x0, post, yp. auto.
-      * split.
-        { intros H. inversion H; subst. destruct (proj1 IH eq_refl) as (pre & x0 & post & ys & H1 & H2 & H3).
-          exists (x :: pre), x0, post, (y :: ys). subst r. cbn. rewrite Hx, H2. auto. }
-        { intros (pre & x0 & post & ys & H & Hp & Hx0).
-          destruct pre as [|p pre]; cbn in H; inversion H; subst.
-          { rewrite Hx in Hx0. discriminate. }
-          cbn in Hp. rewrite Hx in Hp. destruct (mapM f pre) as [yp|] eqn:Hpre; [|discriminate].
-          f_equal. assert (Err e'' = @Err (list B) e) as Hq; [|inversion Hq; reflexivity].
-          apply IH. exists pre, x0, post, yp. auto. }
-    + split.
-      * intros H. inversion H; subst. exists [], x, r, []. cbn. auto.
-      * intros (pre & x0 & post & ys & H & Hp & Hx0).
-        destruct pre as [|p pre]; cbn in H; inversion H; subst.
-        { rewrite Hx in Hx0. inversion Hx0. reflexivity. }
-        cbn in Hp. rewrite Hx in Hp. discriminate.
+  unfold first_err. split.
+  - induction l as [|x r IH]; cbn; [discriminate|].
+    destruct (f x) as [y|e'] eqn:Hx.
+    + destruct (mapM f r) as [yr|e''] eqn:Hr; [discriminate|].
+      intros H. inversion H; subst. destruct (IH eq_refl) as (pre & x0 & post & ys & H1 & H2 & H3).
+      exists (x :: pre), x0, post, (y :: ys). subst r. cbn. rewrite Hx, H2. auto.
+    + intros H. inversion H; subst. exists [], x, r, []. auto.
+  - intros (pre & x & post & ys & -> & Hp & Hx). revert ys Hp.
+    induction pre as [|p pre IH]; intros ys Hp; cbn.
+    + rewrite Hx. reflexivity.
+    + cbn in Hp. destruct (f p) as [y|]; [|discriminate].
+      destruct (mapM f pre) as [yp|] eqn:Hpre; [|discriminate].
+      rewrite (IH yp eq_refl). reflexivity.
 Qed.
+
+Lemma Forall2_len {A B} (R : A -> B -> Prop) l vs : Forall2 R l vs -> length l = length vs.
+Proof. induction 1; cbn; auto. Qed.
 
 Lemma Forall2_law_inv {A B} (R : A -> B -> Prop) (g : B -> res A) l vs :
   Forall2 R l vs -> (forall x v, In x l -> R x v -> g v = Ok x) -> mapM g vs = Ok l.
@@ -129,8 +119,8 @@ Section GenericProofs.
       + intros H. right. exists items. auto.
       + intros [H|(it & H & H')]; [discriminate|]. inversion H; subst. exact H'.
     - split.
-      + intros H. left. exact H.
-      + intros [H|(it & H & _)]; [exact H|discriminate].
+      + intros H. left. inversion H. reflexivity.
+      + intros [H|(it & H & _)]; [inversion H; reflexivity|discriminate].
   Qed.
 
   (* set / unordered_set *)
@@ -140,9 +130,8 @@ Section GenericProofs.
     revert acc. induction items as [|it r IH]; intros acc; cbn.
     - split; discriminate.
     - destruct (fromX it) as [x|e'] eqn:Hx; [|tauto].
-      rewrite IH. destruct (mapM fromX r); split; intros H; try discriminate; try exact H.
-      + inversion H; reflexivity.
-      + inversion H; reflexivity.
+      rewrite IH. destruct (mapM fromX r); split; intros H; try discriminate; try exact H;
+        inversion H; reflexivity.
   Qed.
 
   Lemma set_loop_ok items acc r :
@@ -209,4 +198,384 @@ Section GenericProofs.
         * rewrite <- app_assoc. exact Hlaw.
         * exact H.
   Qed.
+
+  Lemma set_back (l accl : list X) (vs : list pyval) :
+    Forall2 (fun x v => toX x = Ok v) l vs ->
+    (forall x v, In x l -> toX x = Ok v -> fromX v = Ok x) ->
+    NoDup (accl ++ l) ->
+    set_loop fromX eqb vs accl = Ok (accl ++ l).
+  Proof.
+    intros HF. revert accl. induction HF as [|x v l vs Hxv HF IH]; intros accl Hlaw Hnd; cbn.
+    - rewrite app_nil_r. reflexivity.
+    - rewrite (Hlaw x v (or_introl eq_refl) Hxv).
+      unfold set_insert. destruct (existsb (eqb x) accl) eqn:He.
+      + exfalso. apply existsb_exists in He. destruct He as (a & Ha & Hxa).
+        apply eqb_sound in Hxa. subst a. apply NoDup_remove_2 in Hnd. apply Hnd.
+        apply in_app_iff; auto.
+      + replace (accl ++ x :: l) with ((accl ++ [x]) ++ l) by (rewrite <- app_assoc; reflexivity).
+        apply IH.
+        * intros x' v' Hin. apply Hlaw. right. exact Hin.
+        * rewrite <- app_assoc. exact Hnd.
+  Qed.
+
+  (* C set -> Python set -> C set is the identity (any element converters obeying the law) *)
+  Theorem set_roundtrip (l : list X) (vs : list pyval) :
+    NoDup l -> (forall x v, In x l -> toX x = Ok v -> fromX v = Ok x) ->
+    pyset_loop toX l [] = Ok vs -> set_from_py fromX eqb (PSet vs) = Ok l.
+  Proof.
+    intros Hnd Hlaw H. unfold set_from_py. cbn.
+    assert (HF := pyset_images l [] [] vs Hnd (Forall2_nil _) Hlaw H). cbn in HF.
+    exact (set_back l [] vs HF Hlaw Hnd).
+  Qed.
+
+  (* maps *)
+  Definition kv_rel (c : X * Y) (p : pyval * pyval) : Prop :=
+    toX (fst c) = Ok (fst p) /\ toY (snd c) = Ok (snd p).
+
+  Lemma dict_set_fresh k v d :
+    (forall k' v', In (k', v') d -> pyeqb k k' = false) -> dict_set k v d = d ++ [(k, v)].
+  Proof.
+    induction d as [|[k' v'] d IH]; cbn; intros H; [reflexivity|].
+    rewrite (H k' v' (or_introl eq_refl)). f_equal. apply IH.
+    intros k2 v2 Hin. apply (H k2 v2). right; exact Hin.
+  Qed.
+
+  Lemma pydict_images (kv accl : list (X * Y)) (accd d : list (pyval * pyval)) :
+    NoDup (map fst (accl ++ kv)) ->
+    Forall2 kv_rel accl accd ->
+    (forall k v, In k (map fst (accl ++ kv)) -> toX k = Ok v -> fromX v = Ok k) ->
+    pydict_loop toX toY kv accd = Ok d ->
+    Forall2 kv_rel (accl ++ kv) d.
+  Proof.
+    revert accl accd. induction kv as [|[k y] r IH]; intros accl accd Hnd Hacc Hlaw H; cbn in H.
+    - inversion H; subst. rewrite app_nil_r. exact Hacc.
+    - destruct (toY y) as [pv|e] eqn:Hy; [|discriminate].
+      destruct (toX k) as [pk|e] eqn:Hk; [|discriminate].
+      destruct (hashable pk); [|discriminate].
+      assert (Hfresh : forall k' v', In (k', v') accd -> pyeqb pk k' = false).
+      { intros k' v' Hin. destruct (pyeqb pk k') eqn:He; [|reflexivity]. exfalso.
+        apply pyeqb_sound in He. subst k'.
+        assert (exists c, In c accl /\ toX (fst c) = Ok pk) as (c & Hc & Hcp).
+        { clear - Hacc Hin. induction Hacc as [|c0 p0 la lp H0 H1 IH]; [destruct Hin|].
+          destruct Hin as [Hin|Hin].
+          - exists c0. split; [left; reflexivity|]. destruct H0 as [H0 _]. rewrite Hin in H0. exact H0.
+          - destruct (IH Hin) as (c & Hc & Hcp). exists c. split; [right; exact Hc|exact Hcp]. }
+        assert (Hin1 : In (fst c) (map fst (accl ++ (k, y) :: r))).
+        { rewrite map_app. apply in_app_iff. left. apply in_map. exact Hc. }
+        assert (Hin2 : In k (map fst (accl ++ (k, y) :: r))).
+        { rewrite map_app. apply in_app_iff. right. left. reflexivity. }
+        assert (E1 : fromX pk = Ok (fst c)) by (apply Hlaw; assumption).
+        assert (E2 : fromX pk = Ok k) by (apply Hlaw; assumption).
+        assert (E3 : fst c = k) by congruence.
+        rewrite map_app in Hnd. cbn in Hnd. apply NoDup_remove_2 in Hnd. apply Hnd.
+        apply in_app_iff. left. rewrite <- E3. apply in_map. exact Hc. }
+      rewrite (dict_set_fresh _ _ _ Hfresh) in H.
+      replace (accl ++ (k, y) :: r) with ((accl ++ [(k, y)]) ++ r) by (rewrite <- app_assoc; reflexivity).
+      apply IH with (accd := accd ++ [(pk, pv)]).
+      + rewrite <- app_assoc. exact Hnd.
+      + apply Forall2_app; [exact Hacc|]. constructor; [split; assumption|constructor].
+      + rewrite <- app_assoc. exact Hlaw.
+      + exact H.
+  Qed.
+
+  Lemma map_back (kv accl : list (X * Y)) (d : list (pyval * pyval)) :
+    Forall2 kv_rel kv d ->
+    (forall c p, In c kv -> kv_rel c p -> fromX (fst p) = Ok (fst c) /\ fromY (snd p) = Ok (snd c)) ->
+    NoDup (map fst (accl ++ kv)) ->
+    map_loop fromX fromY eqb d accl = Ok (accl ++ kv).
+  Proof.
+    intros HF. revert accl. induction HF as [|c p kv d Hcp HF IH]; intros accl Hlaw Hnd; cbn.
+    - rewrite app_nil_r. reflexivity.
+    - destruct p as [pk pv]. destruct c as [k y].
+      destruct (Hlaw (k, y) (pk, pv) (or_introl eq_refl) Hcp) as [Hk Hy]. cbn in Hk, Hy.
+      rewrite Hk, Hy. unfold map_insert.
+      destruct (existsb (fun p => eqb k (fst p)) accl) eqn:He.
+      + exfalso. apply existsb_exists in He. destruct He as (a & Ha & Hka). apply eqb_sound in Hka.
+        rewrite map_app in Hnd. cbn in Hnd. apply NoDup_remove_2 in Hnd. apply Hnd.
+        apply in_app_iff. left. rewrite Hka. apply in_map. exact Ha.
+      + replace (accl ++ (k, y) :: kv) with ((accl ++ [(k, y)]) ++ kv) by (rewrite <- app_assoc; reflexivity).
+        apply IH.
+        * intros c p Hin. apply Hlaw. right; exact Hin.
+        * rewrite <- app_assoc. exact Hnd.
+  Qed.
+
+  (* C map -> Python dict -> C map is the identity *)
+  Theorem map_roundtrip kv d :
+    NoDup (map fst kv) ->
+    (forall k v, In k (map fst kv) -> toX k = Ok v -> fromX v = Ok k) ->
+    (forall y v, In y (map snd kv) -> toY y = Ok v -> fromY v = Ok y) ->
+    pydict_loop toX toY kv [] = Ok d -> map_from_py fromX fromY eqb (PDict d) = Ok kv.
+  Proof.
+    intros Hnd HlK HlV H. unfold map_from_py. cbn.
+    assert (HF := pydict_images kv [] [] d Hnd (Forall2_nil _) HlK H). cbn in HF.
+    apply (map_back kv [] d HF); [|exact Hnd].
+    intros c p Hin [H1 H2]. split.
+    - apply HlK; [apply in_map; exact Hin|exact H1].
+    - apply HlV; [apply in_map; exact Hin|exact H2].
+  Qed.
+
+  Definition conv_kv (p : pyval * pyval) : res (X * Y) :=
+    match fromX (fst p) with
+    | Err e => Err e
+    | Ok k => match fromY (snd p) with Err e => Err e | Ok y => Ok (k, y) end
+    end.
+
+  (* key before value, entries in dict order; the first failure decides *)
+  Lemma map_loop_err kvs acc e :
+    map_loop fromX fromY eqb kvs acc = Err e <-> mapM conv_kv kvs = Err e.
+  Proof.
+    revert acc. induction kvs as [|[k v] r IH]; intros acc; cbn.
+    - split; discriminate.
+    - unfold conv_kv at 1. cbn. destruct (fromX k) as [ck|e'] eqn:Hk; [|tauto].
+      destruct (fromY v) as [cv|e'] eqn:Hv; [|tauto].
+      rewrite IH. destruct (mapM conv_kv r); split; intros H; try discriminate; try exact H;
+        inversion H; reflexivity.
+  Qed.
+
+  Theorem pair_roundtrip x y px py :
+    fromX px = Ok x -> fromY py = Ok y ->
+    pair_from_py fromX fromY (PTuple [px; py]) = Ok (x, y).
+  Proof. intros H1 H2. unfold pair_from_py. cbn. rewrite H1, H2. reflexivity. Qed.
+
+  Theorem pair_error_order v a b e :
+    unpack2 v = Ok (a, b) ->
+    (pair_from_py fromX fromY v = Err e <->
+     fromX a = Err e \/ (exists x, fromX a = Ok x) /\ fromY b = Err e).
+  Proof.
+    intros Hu. unfold pair_from_py. rewrite Hu. destruct (fromX a) as [x|e1].
+    - destruct (fromY b) as [y|e2]; split.
+      + discriminate.
+      + intros [H|[_ H]]; discriminate.
+      + intros H. right. split; [eauto|]. inversion H; reflexivity.
+      + intros [H|[_ H]]; [discriminate|]. inversion H; reflexivity.
+    - split.
+      + intros H. left. inversion H; reflexivity.
+      + intros [H|[[x H] _]]; [inversion H; reflexivity|discriminate].
+  Qed.
+
+  (* C arrays *)
+  Lemma arr_loop_spec n items :
+    arr_loop fromX n items =
+    match mapM fromX (firstn n items) with
+    | Err e => Err e
+    | Ok xs => if Nat.eqb (length items) n then Ok xs
+               else if Nat.ltb n (length items) then Err IndexTooMany else Err IndexNotEnough
+    end.
+  Proof.
+    revert n. induction items as [|it r IH]; intros [|m]; cbn; try reflexivity.
+    destruct (fromX it) as [x|e]; [|reflexivity].
+    rewrite IH. destruct (mapM fromX (firstn m r)) as [xs|e]; [|reflexivity].
+    unfold Nat.ltb. cbn.
+    destruct (Nat.eqb (length r) m); [reflexivity|].
+    destruct (length r) as [|l']; [reflexivity|]. destruct (Nat.leb m l'); reflexivity.
+  Qed.
+
+  Lemma py_len_items v m :
+    py_len v = Some m -> exists items, iter_items v = Ok items /\ length items = m.
+  Proof.
+    destruct v; cbn; intros H; inversion H; subst; eexists; split; try reflexivity;
+      rewrite ?map_length; reflexivity.
+  Qed.
+
+  (* a result is produced only from exactly n items, all converted *)
+  Theorem arr_exact n v xs :
+    arr_from_py fromX n v = Ok xs ->
+    exists items, iter_items v = Ok items /\ length items = n /\ mapM fromX items = Ok xs.
+  Proof.
+    unfold arr_from_py. intros H.
+    assert (G : arr_run fromX n v = Ok xs ->
+                exists items, iter_items v = Ok items /\ length items = n /\ mapM fromX items = Ok xs).
+    { unfold arr_run. destruct (iter_items v) as [items|e]; [|discriminate].
+      destruct items as [|i0 ir].
+      - destruct n; [|discriminate]. intros E. inversion E. exists []. auto.
+      - rewrite arr_loop_spec. destruct (mapM fromX (firstn n (i0 :: ir))) as [ys|e] eqn:Hm; [|discriminate].
+        destruct (Nat.eqb (length (i0 :: ir)) n) eqn:Hl.
+        + apply Nat.eqb_eq in Hl. intros E. inversion E; subst ys. exists (i0 :: ir).
+          split; [reflexivity|]. split; [exact Hl|]. rewrite <- Hl in Hm. rewrite firstn_all in Hm. exact Hm.
+        + destruct (Nat.ltb n (length (i0 :: ir))); discriminate. }
+    destruct (py_len v) as [m|]; [|exact (G H)].
+    destruct (Nat.eqb m n); [exact (G H)|]. destruct (Nat.leb n m); discriminate.
+  Qed.
+
+  Theorem arr_wrong_length_raises n v items :
+    iter_items v = Ok items -> length items <> n -> exists e, arr_from_py fromX n v = Err e.
+  Proof.
+    intros Hi Hl. destruct (arr_from_py fromX n v) as [xs|e] eqn:H; [|eauto].
+    exfalso. destruct (arr_exact _ _ _ H) as (items' & H1 & H2 & _). congruence.
+  Qed.
+
+  Theorem arr_roundtrip n (l : list X) vs :
+    length l = n -> (forall x v, In x l -> toX x = Ok v -> fromX v = Ok x) ->
+    mapM toX l = Ok vs -> arr_from_py fromX n (PList vs) = Ok l.
+  Proof.
+    intros Hn Hlaw H. apply mapM_Forall2 in H.
+    assert (Hlen : length vs = n) by (rewrite <- Hn; symmetry; eapply Forall2_len; eauto).
+    assert (Hback : mapM fromX vs = Ok l) by (eapply Forall2_law_inv; eauto).
+    unfold arr_from_py. cbn. rewrite Hlen, Nat.eqb_refl. unfold arr_run. cbn.
+    destruct vs as [|v0 vr].
+    - cbn in Hback. inversion Hback. subst. cbn. reflexivity.
+    - rewrite arr_loop_spec. rewrite <- Hlen at 1. rewrite firstn_all, Hback, Hlen, Nat.eqb_refl. reflexivity.
+  Qed.
 End GenericProofs.
+
+(* ---------- strings ---------- *)
+
+Definition codec_law (e : senc) : Prop :=
+  forall b s, decode_with e b = Ok s -> encode_with e s = Ok b.
+
+Lemma ascii_codec_law : codec_law EAscii.
+Proof.
+  intros b s. cbn. destruct (all_ascii b) eqn:Ha; [|discriminate].
+  intros H. inversion H; subst. rewrite Ha. reflexivity.
+Qed.
+
+(* std::string is length based in both directions: C -> Python -> C is exact for every byte
+   string (embedded NULs included) whenever the text codec inverts its own decoding *)
+Theorem string_to_from sc b v :
+  (sc_type sc = SUnicode -> codec_law (sc_enc sc)) ->
+  string_to_py sc (CBytes b) = Ok v -> string_from_py sc v = Ok (CBytes b).
+Proof.
+  intros Hc. unfold string_to_py, from_string_and_size, string_from_py.
+  destruct (sc_type sc); cbn.
+  - intros H; inversion H; reflexivity.
+  - intros H; inversion H; reflexivity.
+  - destruct (decode_with (sc_enc sc) b) as [s|e] eqn:Hd; cbn; intros H; inversion H; subst.
+    cbn. rewrite (Hc eq_refl _ _ Hd). reflexivity.
+Qed.
+
+Theorem string_bytes_roundtrip sc b :
+  sc_type sc = SBytes -> string_roundtrip sc (PBytes b) = Ok (PBytes b).
+Proof.
+  intros H. unfold string_roundtrip, string_from_py, string_to_py, from_string_and_size.
+  cbn. rewrite H. reflexivity.
+Qed.
+
+(* c_string_type=str with a non ascii/utf8 encoding: what to_py produces is refused by from_py *)
+Theorem string_latin1_raises sc b v :
+  sc_type sc = SUnicode -> sc_enc sc = ELatin1 ->
+  string_to_py sc (CBytes b) = Ok v -> string_from_py sc v = Err TypeError.
+Proof.
+  intros Ht He. unfold string_to_py, from_string_and_size, string_from_py. rewrite Ht, He. cbn.
+  intros H; inversion H; subst. cbn. rewrite He. reflexivity.
+Qed.
+
+Lemma until_nul_id b : ~ In 0%N b -> until_nul b = b.
+Proof.
+  induction b as [|x r IH]; cbn; intros H; [reflexivity|].
+  destruct (N.eqb x 0) eqn:E.
+  - apply N.eqb_eq in E. exfalso. apply H. left. exact E.
+  - f_equal. apply IH. intros Hin. apply H. right. exact Hin.
+Qed.
+
+Lemma until_nul_cut b1 b2 : ~ In 0%N b1 -> until_nul (b1 ++ 0%N :: b2) = b1.
+Proof.
+  induction b1 as [|x r IH]; cbn; intros H; [reflexivity|].
+  destruct (N.eqb x 0) eqn:E.
+  - apply N.eqb_eq in E. exfalso. apply H. left. exact E.
+  - f_equal. apply IH. intros Hin. apply H. right. exact Hin.
+Qed.
+
+(* char*: exact on NUL-free byte strings ... *)
+Theorem charp_nul_free_roundtrip sc b :
+  sc_type sc = SBytes -> ~ In 0%N b -> charp_roundtrip sc (PBytes b) = Ok (PBytes b).
+Proof.
+  intros Ht Hn. unfold charp_roundtrip, charp_from_py, charp_to_py, from_string_and_size. cbn.
+  rewrite Ht, (until_nul_id b Hn). reflexivity.
+Qed.
+
+(* ... and silently cut at the first NUL otherwise *)
+Theorem charp_truncates sc b1 b2 :
+  sc_type sc = SBytes -> ~ In 0%N b1 ->
+  charp_roundtrip sc (PBytes (b1 ++ 0%N :: b2)) = Ok (PBytes b1).
+Proof.
+  intros Ht Hn. unfold charp_roundtrip, charp_from_py, charp_to_py, from_string_and_size. cbn.
+  rewrite Ht, (until_nul_cut b1 b2 Hn). reflexivity.
+Qed.
+
+Theorem charp_roundtrip_refuted :
+  exists sc b r, charp_roundtrip sc (PBytes b) = Ok (PBytes r) /\ r <> b.
+Proof.
+  exists {| sc_type := SBytes; sc_enc := ENone |}, [97; 0; 98]%N, [97]%N.
+  split; [reflexivity|discriminate].
+Qed.
+
+(* ---------- struct from dict ---------- *)
+
+Lemma lookup_all_ext names d1 d2 :
+  (forall n, In n names -> dict_get n d1 = dict_get n d2) ->
+  lookup_all names (PDict d1) = lookup_all names (PDict d2).
+Proof.
+  unfold lookup_all. induction names as [|n r IH]; intros H; cbn [mapM]; [reflexivity|].
+  assert (E : getitem_str n (PDict d1) = getitem_str n (PDict d2)).
+  { cbn. rewrite (H n (or_introl eq_refl)). reflexivity. }
+  rewrite E. rewrite IH; [reflexivity|].
+  intros n' Hin. apply H. right. exact Hin.
+Qed.
+
+(* only the member keys of the dict matter: any other key is ignored *)
+Theorem struct_only_member_keys sc fs d1 d2 :
+  (forall n, In n (field_names fs) -> dict_get n d1 = dict_get n d2) ->
+  from_py sc (TStruct fs) (PDict d1) = from_py sc (TStruct fs) (PDict d2).
+Proof. intros H. cbn. rewrite (lookup_all_ext _ d1 d2 H). reflexivity. Qed.
+
+Lemma lookup_all_missing names d :
+  (exists n, In n names /\ dict_get n d = None) -> lookup_all names (PDict d) = Err ValueError.
+Proof.
+  unfold lookup_all. induction names as [|n0 r IH]; intros (n & Hin & Hn); [destruct Hin|].
+  cbn [mapM]. destruct (dict_get n0 d) as [x|] eqn:H0.
+  - assert (E : getitem_str n0 (PDict d) = Ok x) by (cbn; rewrite H0; reflexivity).
+    rewrite E. destruct Hin as [->|Hin]; [congruence|].
+    rewrite IH; [reflexivity|]. exists n. auto.
+  - assert (E : getitem_str n0 (PDict d) = Err ValueError) by (cbn; rewrite H0; reflexivity).
+    rewrite E. reflexivity.
+Qed.
+
+Lemma lookup_all_present names d :
+  (forall n, In n names -> dict_get n d <> None) -> exists vals, lookup_all names (PDict d) = Ok vals.
+Proof.
+  unfold lookup_all. induction names as [|n0 r IH]; intros H; cbn [mapM]; [eauto|].
+  destruct (dict_get n0 d) as [x|] eqn:H0; [|exfalso; apply (H n0 (or_introl eq_refl)); exact H0].
+  assert (E : getitem_str n0 (PDict d) = Ok x) by (cbn; rewrite H0; reflexivity).
+  destruct IH as (vals & Hv); [intros n Hin; apply H; right; exact Hin|].
+  rewrite E, Hv. eauto.
+Qed.
+
+(* a missing member key is always a ValueError, whatever else the dict holds and whatever the
+   other members convert to (all lookups precede all conversions) *)
+Theorem struct_missing_key_raises sc fs d n :
+  In n (field_names fs) -> dict_get n d = None ->
+  from_py sc (TStruct fs) (PDict d) = Err ValueError.
+Proof. intros Hin Hn. cbn. rewrite lookup_all_missing; [reflexivity|]. exists n. auto. Qed.
+
+(* with all member keys present no key error is raised: the outcome is that of the member
+   conversions on the looked-up values *)
+Theorem struct_keys_present sc fs d :
+  (forall n, In n (field_names fs) -> dict_get n d <> None) ->
+  exists vals, lookup_all (field_names fs) (PDict d) = Ok vals /\
+               from_py sc (TStruct fs) (PDict d) = from_py sc fs (PTuple vals).
+Proof.
+  intros H. destruct (lookup_all_present _ _ H) as (vals & Hv). exists vals. split; [exact Hv|].
+  cbn. rewrite Hv. reflexivity.
+Qed.
+
+(* the property text says wrong keys raise; an extra key does not *)
+Theorem struct_extra_key_refuted :
+  exists sc fs d extra, dict_get extra d <> None /\ ~ In extra (field_names fs) /\
+                        exists c, from_py sc (TStruct fs) (PDict d) = Ok c.
+Proof.
+  exists {| sc_type := SBytes; sc_enc := ENone |},
+         (FCons [97%N] (TLeaf (LInt 32 true)) FNil),
+         [(PStr [97%N], PInt 1); (PStr [122%N], PInt 2)], [122%N].
+  split; [cbn; discriminate|]. split.
+  - cbn. intros [H|[]]. discriminate.
+  - eexists. vm_compute. reflexivity.
+Qed.
+
+(* std::map from a non-dict: AttributeError, not TypeError *)
+Theorem map_nonmapping_refuted :
+  exists sc t v, from_py sc t v = Err AttributeError.
+Proof.
+  exists {| sc_type := SBytes; sc_enc := ENone |},
+         (TMap (TLeaf (LInt 32 true)) (TLeaf (LInt 32 true))), (PList []).
+  vm_compute. reflexivity.
+Qed.
